@@ -37,6 +37,10 @@ func keyBudget(needed, retries int) func(string, int) int {
 			}
 		case "global.Intn":
 			return 1
+		case "Intn":
+			if arg == 8 { // literals.MinSize: the key size draw; fixed to its minimum (its determinism is C03's subject)
+				return 1
+			}
 		}
 		return 0
 	}
